@@ -1,6 +1,7 @@
 package main
 
 import (
+	"go/ast"
 	"fmt"
 	"go/types"
 	"strings"
@@ -139,6 +140,14 @@ func (x *Exec) callCommon0(fr *frame, ins ssa.CallInstruction, c *ssa.CallCommon
 		res = x.havocCall(name, resT, args, argVals, st, r)
 		cs.Res = res
 		return res, r
+	}
+	if c.IsInvoke() {
+		// assumed contracts of library interfaces (fs.DirEntry, ...)
+		if m, ok := stdModels[name]; ok {
+			res, r = m(x, fr, ins, c, args, st, r)
+			cs.Res = res
+			return res, r
+		}
 	}
 	switch f := c.Value.(type) {
 	case *ssa.Builtin:
@@ -485,6 +494,28 @@ func (x *Exec) callContract(fr *frame, cs *CallSite, fn *ssa.Function, ct *Contr
 	}
 	if _, ok := ct.Raw["modifies_maps"]; ok {
 		x.vc.havocMaps(st)
+	}
+	// whatever the callee stored in a field it may modify is a well-typed value of that field's
+	// type (Go's type system), including what a stored slice or pointer refers to
+	if !pure && len(ct.Modifies) > 0 {
+		x.refBound = st.Alloc
+		for _, m := range ct.Modifies {
+			if sel, ok := m.Expr.(*ast.SelectorExpr); ok {
+				func() {
+					defer func() {
+						if e := recover(); e != nil {
+							if _, ok := e.(specErr); !ok {
+								panic(e)
+							}
+						}
+					}()
+					bv := env.eval(sel.X)
+					ref, off, ft := env.fieldAddr(bv, sel.Sel.Name)
+					x.validFacts(st.Mem, ft, ref, off, r, 2)
+				}()
+			}
+		}
+		x.refBound = ""
 	}
 	resT := fn.Signature.Results()
 	res := x.havocVal(resT, st, r, "res_"+fn.Name())
